@@ -429,7 +429,7 @@ def encode_delta(values, block_size=128, miniblocks=4, is64=True, info=None):
     return bytes(out)
 
 
-def decode_delta(buf, pos, is64=True, end=None, info=None):
+def decode_delta(buf, pos, is64=True, end=None, info=None, max_count=None):
     """Decode one DELTA_BINARY_PACKED stream -> (values, pos after the stream).
 
     ``info`` receives 'block_size', 'miniblocks', 'count', 'widths' and a list
@@ -444,6 +444,8 @@ def decode_delta(buf, pos, is64=True, end=None, info=None):
     total, pos = _uv(buf, pos, end)
     first, pos = _uv(buf, pos, end)
     first = unzigzag(first)
+    if max_count is not None and total > max_count:
+        raise DecodeError("delta: stream declares %d values, at most %d expected" % (total, max_count))
     violations = []
     if block_size == 0 or block_size % 128:
         violations.append("block size %d is not a positive multiple of 128" % block_size)
@@ -517,7 +519,7 @@ def encode_delta_length_byte_array(values, block_size=128, miniblocks=4):
 
 
 def decode_delta_length_byte_array(buf, pos, end, count=None, info=None):
-    lens, pos = decode_delta(buf, pos, is64=False, end=end, info=info)
+    lens, pos = decode_delta(buf, pos, is64=False, end=end, info=info, max_count=count)
     out = []
     for i, ln in enumerate(lens):
         if ln < 0 or pos + ln > end:
@@ -546,8 +548,8 @@ def encode_delta_byte_array(values, block_size=128, miniblocks=4):
 
 
 def decode_delta_byte_array(buf, pos, end, count=None, info=None):
-    prefixes, pos = decode_delta(buf, pos, is64=False, end=end, info=info)
-    suffixes, pos = decode_delta_length_byte_array(buf, pos, end, info=info)
+    prefixes, pos = decode_delta(buf, pos, is64=False, end=end, info=info, max_count=count)
+    suffixes, pos = decode_delta_length_byte_array(buf, pos, end, count=None if count is None else len(prefixes), info=info)
     if len(prefixes) != len(suffixes):
         raise DecodeError("DELTA_BYTE_ARRAY: %d prefixes, %d suffixes" % (len(prefixes), len(suffixes)))
     out = []
